@@ -17,7 +17,7 @@ def projections(sc, entry):
     out = []
     for rec in recs:
         v = View(rec, sc)
-        p = O.project(v, keep=KEEP, strip_place=True, strip_operation=strip_op)
+        p = O.project(v, keep=KEEP, strip_place=True, strip_operation=strip_op, roles=True)
         f = O.canon_call_vs_execute(O.canon_final(v), v)
         out.append((p, f, v))
     return out
@@ -181,7 +181,7 @@ def work(ctx, tier):
         elif k % 5 == 1:
             # "the same behaviour of ... callbacks" includes a caller callback that raises at its i-th invocation; only callbacks
             # whose invocation counts the property itself lists (strategy calls, sleeps, handler consultations) are used
-            sc["fault"] = {"kind": "cb", "cb": rng.choice(["strategy", "strategy", "sleeper", "handler"]), "at": rng.choice([0, 0, 1, 2]), "exc": rng.choice(["RuntimeError", "ValueError", "KeyError"])}
+            sc["fault"] = {"kind": "cb", "cb": rng.choice(["strategy", "strategy", "sleeper", "handler"]), "at": rng.choice([0, 0, 1, 2]), "exc": rng.choice(gen.CB_EXCS)}
         if sc["cfg"].get("breaker"):
             ents = list(rig.BREAKER_ENTRIES)
         else:
@@ -192,14 +192,14 @@ def work(ctx, tier):
             # async, Retry against Policy against RetryPolicy against the sugar
             sc["place"]["hooks"] = rng.choice(["call", "policy", "both"])
             sc["poll"] = True
-            sc["fault"] = {"kind": "cb", "cb": rng.choice(["astart", "aend", "aend", "abort_if"]), "at": rng.choice([0, 1, 1, 2, 3]), "exc": rng.choice(["RuntimeError", "ValueError", "KeyError"])}
+            sc["fault"] = {"kind": "cb", "cb": rng.choice(["astart", "aend", "aend", "abort_if"]), "at": rng.choice([0, 1, 1, 2, 3]), "exc": rng.choice(gen.CB_EXCS)}
             ex = rng.random() < 0.5
             ents = [e for e in ents if e.endswith("execute") == ex]
             ctx.inc("scenarios_with_raising_attempt_hook_same_delivery")
         elif k % 5 == 3 and k % 2:
             # the same, across deliveries: call() against execute() (the clean tree differs here by KF6, and only by KF6)
             sc["place"]["hooks"] = rng.choice(["call", "policy", "both"])
-            sc["fault"] = {"kind": "cb", "cb": rng.choice(["astart", "aend", "aend"]), "at": rng.choice([0, 1, 1, 2]), "exc": rng.choice(["RuntimeError", "ValueError", "KeyError"])}
+            sc["fault"] = {"kind": "cb", "cb": rng.choice(["astart", "aend", "aend"]), "at": rng.choice([0, 1, 1, 2]), "exc": rng.choice(gen.CB_EXCS)}
             ctx.inc("scenarios_with_raising_attempt_hook_across_deliveries")
         rng.shuffle(ents)
         ref = compare(ctx, sc, ents, stats)
